@@ -168,8 +168,12 @@ PLANS = {
     },
     "C16": lambda tier: {
         "level": "exploration",
-        "stages": [main_stage(40, 300, tier, death_is_violation=True)],
-        "require": ["sentences_checked", "texts_with_several_sentences", "small_window_runs", "texts_longer_than_the_window", "probe_scenarios", "lexicons_with_user_dictionaries"],
+        "stages": [main_stage(40, 300, tier, death_is_violation=True),
+                   # the second observation point of the property: `sudachi --split-sentences=only` (C19's driver; only the
+                   # runs that print sentences are judged here)
+                   dict(main_stage(60, 240, tier, name="cli", shards=8), needs=["py", "cli"], extra=["--prop-alias", "C19", "--scale", "2"],
+                        kinds_re="^cli_sentences")],
+        "require": ["cli.cli_sentence_only_runs_compared", "sentences_checked", "texts_with_several_sentences", "small_window_runs", "texts_longer_than_the_window", "probe_scenarios", "lexicons_with_user_dictionaries"],
         "rule": "seeded lexicons (ordinary words, words containing / ending with terminators such as 'モーニング娘。', 'な。な', 'Yahoo!', "
                 "one-character terminator entries '。' '！' '?', words made of closers) x seeded texts (terminator runs, periods in numbers and "
                 "itemisation headers, nested / unbalanced brackets of 12 kinds, quote particles after terminators, <br> runs of mixed case, "
